@@ -523,6 +523,34 @@ def it_next(it, st, itv, fr):
                 yield s2, It('chars', s, None, pos + 1), z3.ZeroExt(24, s.bytes[pos])
             else:
                 yield s2, itv, None
+    elif kind == 'bytes':             # str::bytes / slice of bytes by value
+        s = src
+        if pos >= len(s.bytes):
+            yield st, itv, None
+            return
+        for s2, more in fork_bool(it, st, z3.UGT(s.len, bv(pos))):
+            if more:
+                yield s2, It('bytes', s, None, pos + 1), s.bytes[pos]
+            else:
+                yield s2, itv, None
+    elif kind == 'splitc':            # str::split(char): src = (string, separator byte); pos = start of the next piece (None: finished)
+        s, sep = src
+        if pos is None:
+            yield st, itv, None
+            return
+        K = len(s.bytes)
+        nosep = lambda a, b_: z3.And(*[z3.Or(z3.UGE(bv(i), s.len), s.bytes[i] != sep) for i in range(a, b_)]) if b_ > a else z3.BoolVal(True)
+        # the next separator is at j (start <= j < len), or there is none
+        for j in range(pos, K):
+            cond = z3.And(z3.UGT(s.len, bv(j)), s.bytes[j] == sep, nosep(pos, j))
+            if it.feasible(st, cond):
+                s2 = st.fork()
+                s2.pc.append(cond)
+                yield s2, It('splitc', src, None, j + 1), s2.ref(bstr_slice(s, bv(pos), bv(j)))
+        cond = z3.And(nosep(pos, K), z3.UGE(s.len, bv(pos)))
+        if it.feasible(st, cond):
+            st.pc.append(cond)
+            yield st, It('splitc', src, None, None), st.ref(bstr_slice(s, bv(pos), s.len))
     elif kind in EXTRA_ITER_KINDS:
         yield from EXTRA_ITER_KINDS[kind](it, st, itv, fr)
     else:
@@ -763,6 +791,72 @@ def M_find(it, ctx, args, st):
                     else:
                         yield from go(s4, i2)
     yield from go(st, itv)
+
+
+def M_position(it, ctx, args, st):
+    itv = itval(st, args[0])
+
+    def go(st, itv, k):
+        for s2, i2, item in it_next(it, st, itv, ctx.fr):
+            if item is None:
+                yield s2, it.none
+                continue
+            if is_abnormal(item):
+                yield s2, item
+                continue
+            for s3, r in it.call_closure(args[1], [item], s2, ctx.fr):
+                if is_abnormal(r):
+                    yield s3, r
+                    continue
+                for s4, hit in fork_bool(it, s3, r):
+                    if hit:
+                        yield s4, it.some(bv(k))
+                    else:
+                        yield from go(s4, i2, k + 1)
+    yield from go(st, itv, 0)
+
+
+def M_str_bytes(it, ctx, args, st):
+    yield st, It('bytes', sval(st, args[0]))
+
+
+def M_str_split_char_real(it, ctx, args, st):
+    ch = concrete(args[1])
+    if ch is None or ch >= 128:
+        raise Unsupported('str::split with a symbolic / non-ASCII separator')
+    yield st, It('splitc', (sval(st, args[0]), z3.BitVecVal(ch, 8)), None, 0)
+
+
+def M_strip_suffix_char(it, ctx, args, st):
+    s = sval(st, args[0])
+    ch = concrete(args[1])
+    if ch is None or ch >= 128:
+        raise Unsupported('strip_suffix with a symbolic / non-ASCII char')
+    has = z3.And(s.len != 0, bstr_byte(s, s.len - 1) == ch)
+    for s2, hit in fork_bool(it, st, has):
+        yield s2, (it.some(s2.ref(bstr_slice(s, bv(0), s.len - 1))) if hit else it.none)
+
+
+def M_str_trim(it, ctx, args, st):
+    """str::trim for ASCII whitespace (space, \\t, \\n, \\x0b, \\x0c, \\r); Unicode whitespace is outside the bounded strings the harnesses use"""
+    s = sval(st, args[0])
+    ws = lambda b: z3.Or(b == 32, z3.And(z3.UGE(b, 9), z3.ULE(b, 13)))
+    K = len(s.bytes)
+    # number of leading whitespace bytes
+    lead = bv(0)
+    run = z3.BoolVal(True)
+    for i in range(K):
+        run = z3.And(run, z3.UGT(s.len, bv(i)), ws(s.bytes[i]))
+        lead = z3.If(run, bv(i + 1), lead)
+    trail = bv(0)
+    run = z3.BoolVal(True)
+    for k in range(K):
+        # byte at len-1-k
+        b = bstr_byte(s, s.len - 1 - bv(k))
+        run = z3.And(run, z3.UGT(s.len, bv(k)), ws(b))
+        trail = z3.If(run, bv(k + 1), trail)
+    end = z3.If(z3.UGE(lead, s.len), lead, s.len - trail)
+    yield st, st.ref(bstr_slice(s, z3.simplify(lead), z3.simplify(end)))
 
 
 def M_fold(it, ctx, args, st):
@@ -1439,7 +1533,9 @@ MODELS = [
     (ITER + r'filter_map::<.*>', M_adaptor('filter_map')), (ITER + r'flat_map::<.*>', M_adaptor('flat_map')),
     (ITER + r'enumerate', M_adaptor('enumerate')), (ITER + r'rev', M_iter_rev),
     (ITER + r'collect::<.*>', M_collect), (ITER + r'count', M_count), (ITER + r'all::<.*>', M_all), (ITER + r'any::<.*>', M_any),
-    (ITER + r'find::<.*>', M_find), (ITER + r'fold::<.*>', M_fold), (ITER + r'try_fold::<.*>', M_try_fold),
+    (ITER + r'find::<.*>', M_find), (ITER + r'position::<.*>', M_position),
+    (P + r'str::<impl str>::bytes', M_str_bytes), (P + r'str::<impl str>::split::<char>', M_str_split_char_real),
+    (P + r'str::<impl str>::strip_suffix::<char>', M_strip_suffix_char), (P + r'str::<impl str>::trim', M_str_trim), (ITER + r'fold::<.*>', M_fold), (ITER + r'try_fold::<.*>', M_try_fold),
     (ITER + r'max_by::<.*>', M_max_by),
     (ITER + r'max_by_key::<.*>', M_max_by_key), (ITER + r'min_by_key::<.*>', lambda it, ctx, args, st: M_max_by_key(it, ctx, args, st, True)),
     (r'<' + P + r'(slice::Iter|iter::\w+|str::Chars|vec::IntoIter|collections::btree_set::Iter|collections::btree_map::Iter)<.*> as ' + P + r'iter::Iterator>::next', M_iter_next),
